@@ -7,7 +7,7 @@ property monitors on real traces -> on any broken obligation / disagreement sear
 input -> verdict + evidence."""
 import sys, os, json, random, shutil, time, re, traceback
 sys.path.insert(0, os.path.dirname(os.path.abspath(__file__)))
-import vlib, kapi, genapi, monitors, ksizes, kcrypto, kattr, kguard
+import vlib, kapi, genapi, monitors, ksizes, kcrypto, kattr, kguard, kstore
 
 TRUSTED_BASE = [
     'Coq 8.16.1 kernel (coqc, full .vo build); vm_compute used for reflection over regenerated tables and finite sweeps; no native_compute',
@@ -307,7 +307,7 @@ def check_C12(res, tier, seed):
 
 def _kc_job(args):
     fn, a = args[0], args[1:]
-    mod = kattr if fn.startswith('seq_attr') else kguard if fn.startswith('seq_guard') else kcrypto
+    mod = kattr if fn.startswith('seq_attr') else kguard if fn.startswith('seq_guard') else kstore if fn in ('seq_reject', 'seq_persist') else kcrypto
     return getattr(mod, fn)(*a)
 
 
@@ -375,6 +375,164 @@ def check_C07(res, tier, seed):
     finish_proof_side(c, res, 'C07')
 
 
+# ---- the store group: C05, C09, C16 share the fault / crash sweeps of tools/kstore.py ---------------------------------------
+def store_sweep(c, res, pid, tier, seed, modes, codecdrv=None):
+    """run the fail and/or kill sweeps; findings of property `pid` become known findings or violations"""
+    import multiprocessing
+    rng = random.Random(seed)
+    shim = c.harness['fsshim']
+    tpl, blob = kstore.build_template(c.lib, c.harness['p11drv'], shim)
+    stats = {'scenarios': {}, 'fail_cases': 0, 'kill_cases': 0, 'findings_by_class': {}, 'died_as_asked': 0, 'rv_after_fault': {}}
+    known = {k['key']: k for k in vlib.known_findings() if k['kind'] == 'known' and k['property'] == pid}
+    try:
+        S = kstore.scenarios(blob)
+        jobs_f, jobs_k = [], []
+        budget = 36 if tier == 'quick' else 10 ** 9
+        for i, sc in enumerate(S):
+            ref = kstore.reference_run(c.lib, c.harness['p11drv'], shim, tpl.dir, sc)
+            if ref is None:
+                res.violation('%s: the scenario %s cannot be started on the template token' % (pid, sc['name']), {'kind': 'harness', 'scenario': sc['name']}, no_input=True)
+                continue
+            ev = ref['events']
+            stats['scenarios'][sc['name']] = {'events': len(ev), 'rv': ref['rv']}
+            pts = set(kstore.sample_points(len(ev), budget, rng))
+            cnt = {}
+            for k, (f, n) in enumerate(ev, 1):
+                cnt[f] = cnt.get(f, 0) + 1
+                if k in pts and f != 'fclose':
+                    jobs_f.append((c.lib, c.harness['p11drv'], shim, tpl.dir, i, blob, f, cnt[f]))
+                if f == 'fwrite' and n.isdigit() and int(n) >= 64 and (k in pts or tier != 'quick' or int(n) >= 4096):
+                    jobs_f.append((c.lib, c.harness['p11drv'], shim, tpl.dir, i, blob, 'fwrite~short', cnt[f]))
+            for k in sorted(pts):
+                jobs_k.append((c.lib, c.harness['p11drv'], shim, tpl.dir, i, blob, k, ref, codecdrv))
+        results = []
+        with multiprocessing.Pool(16) as pool:
+            if 'fail' in modes:
+                results += pool.map(kstore.fail_case, jobs_f, chunksize=4)
+                stats['fail_cases'] = len(jobs_f)
+            if 'kill' in modes:
+                rk = pool.map(kstore.kill_case, jobs_k, chunksize=4)
+                stats['kill_cases'] = len(jobs_k)
+                stats['died_as_asked'] = sum(1 for r in rk if r.get('died'))
+                results += rk
+        reported = 0
+        for r in results:
+            if r['kind'] == 'fail':
+                key = '%s/%s' % (r['scenario'], 'ok' if r['rv'] == '0x0' else 'error')
+                stats['rv_after_fault'][key] = stats['rv_after_fault'].get(key, 0) + 1
+            stats['codec_files'] = stats.get('codec_files', 0) + r.get('codec_files', 0)
+            for (prop, msg) in r['findings']:
+                if prop == 'K-codec' and pid == 'C16':
+                    stats['findings_by_class']['K-codec'] = stats['findings_by_class'].get('K-codec', 0) + 1
+                    if reported < 3:
+                        reported += 1
+                        res.violation('C16 correspondence K-codec: %s' % msg, {'kind': 'correspondence', 'stream': 'K-codec', 'scenario': r['scenario'], 'crash_point': r.get('k'), 'sig': r.get('sig'),
+                                                                                'difference': msg, 'crash_state_files': r.get('state'),
+                                                                                'names': 'correspondence K-codec (coq/Store/Codec.v refresh_file vs ObjectFile::refresh) on a crash state'})
+                    continue
+                if prop != pid:
+                    continue
+                cls = kstore.classify(prop, r['scenario'], msg, r.get('sig'))
+                stats['findings_by_class'][cls or 'unclassified'] = stats['findings_by_class'].get(cls or 'unclassified', 0) + 1
+                if cls in known:
+                    res.known_finding('key=%s %s' % (cls, known[cls]['text'][:160]))
+                elif reported < 3:
+                    reported += 1
+                    res.violation('%s: %s' % (pid, msg), {'kind': 'store-' + r['kind'], 'scenario': r['scenario'], 'fault': {k: r.get(k) for k in ('func', 'n', 'k', 'sig', 'rv', 'line')},
+                                                          'message': msg, 'how': 'tools/kstore.py: template token, scenario call, harness/fsshim.so armed as recorded', 'seed': seed})
+    finally:
+        tpl.close()
+    return stats
+
+
+def golden_check(c, res, codecdrv):
+    """the token directory written by the pinned version is still usable by the current build"""
+    import json as _json
+    from p11i import P11
+    src = os.path.join(vlib.ROOT, 'fixtures', 'golden-file')
+    g = _json.load(open(os.path.join(src, 'golden.json')))
+    d = vlib.mktmp('vg-')
+    out = {'objects_recorded': len(g['objects']), 'objects_identical': 0, 'files_decoded': 0}
+    try:
+        shutil.copytree(os.path.join(src, 'tokens'), os.path.join(d, 'tokens'))
+        vlib.write_conf(d)
+        p = P11(c.harness['p11drv'], c.lib, reuse=d)
+        bad = None
+        if p.rv('init') != 0:
+            bad = 'C_Initialize fails on the golden token directory'
+        else:
+            s_ = p.op('open t0 rw').get('h')
+            if s_ is None:
+                bad = 'the golden token is not found'
+            elif p.rv('login %s 0 %s' % (s_, g['so'])) != 0:
+                bad = 'the recorded SO PIN no longer logs in'
+            else:
+                p.op('logout %s' % s_)
+                if p.rv('login %s 1 %s' % (s_, g['old_user'])) == 0:
+                    bad = 'the replaced user PIN logs in'
+                elif p.rv('login %s 1 %s' % (s_, g['user'])) != 0:
+                    bad = 'the recorded user PIN no longer logs in'
+                else:
+                    v = kstore.strip(kstore.view(p, s_, big=True)) or {}
+                    want = {k: tuple(tuple(a) for a in at) for k, at in g['objects'].items()}
+                    dd = kstore.diff_views(want, v)
+                    if dd:
+                        bad = 'objects differ from the recorded values: ' + dd
+                    out['objects_identical'] = sum(1 for k in want if v.get(k) == want[k])
+        p.close()
+        cd = kstore.Codec(codecdrv)
+        for root, _, files in os.walk(os.path.join(src, 'tokens')):
+            for f in files:
+                if f.endswith('.object'):
+                    data = open(os.path.join(root, f), 'rb').read()
+                    gg, attrs = kstore.parse_dec(cd.ask('dec', data))
+                    out['files_decoded'] += 1
+                    if attrs is None or cd.ask('reenc', data) != data.hex():
+                        bad = bad or 'the Coq codec does not decode / re-encode the golden file %s' % f
+        cd.close()
+        if bad:
+            res.violation('C05: golden fixture: ' + bad, {'kind': 'golden', 'fixture': src, 'message': bad, 'ops': [l for l, _ in p.trace]})
+    finally:
+        shutil.rmtree(d, ignore_errors=True)
+    return out
+
+
+def check_C09(res, tier, seed):
+    c = prepare('C09', res)
+    st = store_sweep(c, res, 'C09', tier, seed, ('fail',))
+    stats, distinct, samples = run_kcrypto(c, res, 'C09', 'seq_reject', 160 if tier == 'quick' else 4000, seed, stream='K-reject')
+    stats2, samples2 = run_kapi(c, res, 'C09', 'objects', 150 if tier == 'quick' else 6000, 45, seed, 'monitor_c01')
+    res.coverage.update({'evaluations': stats['calls'] + st['fail_cases'] + stats2['ops'], 'distinct_nontrivial': distinct + stats2['distinct_traces'],
+                         'rule': 'K-reject: per sequence 14-22 calls made to fail (unknown / read-only / wrongly sized / inconsistent attribute at a random template position, missing mandatory attribute, R/O session, logged-out session, bad mechanism parameter, truncated / corrupted / empty wrapped key, stale handle) over create, generate, generate-pair, unwrap, derive, copy, set, destroy for token/session x private/public objects; after every rejected call a second session\'s view of all attributes and the raw object files (minus the generation header) are compared with before.  K-fault: every write-path scenario of tools/kstore.py with each file-system call failing in turn (quick: 36 sampled points per scenario). K-api: the core model (whose failing calls change nothing, by theorem) against the library on random histories.',
+                         'samples': samples, 'k_reject': stats, 'k_fault': st, 'k_api': stats2, 'traces_validated_against_impl': stats['sequences'] + stats2['sequences'],
+                         'not_covered': 'SQLite backend (see C20); failures of read(2) / fseek'})
+    finish_proof_side(c, res, 'C09')
+
+
+def check_C05(res, tier, seed):
+    c = prepare('C05', res, extra_vo=['extract/ExtractCodec.vo'])
+    codecdrv = vlib.build_ocaml('codecdrv', 'codec_model', 'codecdrv.ml')
+    st = store_sweep(c, res, 'C05', tier, seed, ('fail',))
+    stats, distinct, samples = run_kcrypto(c, res, 'C05', 'seq_persist', 64 if tier == 'quick' else 1500, seed, extra=(codecdrv,), stream='K-codec')
+    gold = golden_check(c, res, codecdrv)
+    res.coverage.update({'evaluations': stats['calls'] + st['fail_cases'], 'distinct_nontrivial': distinct,
+                         'rule': 'K-persist: per sequence 5-9 objects of 10 kinds (data 0..300000 bytes, AES / generic keys, RSA public keys, certificates, CKA_ALLOWED_MECHANISMS, nested CKA_WRAP_TEMPLATE, dates), 2-4 rounds of label / id changes, copies, destructions, each followed by C_Finalize+C_Initialize, a new process or C_CloseAllSessions; the token objects and every attribute value before and after must be identical, destroyed objects must stay away, session objects must be gone.  K-codec: every object file left behind decodes in the extracted Coq codec, re-encodes to the same bytes, and for public objects every decoded value equals the C_GetAttributeValue result.  Golden: the token directory committed under fixtures/ (written by the pinned version) is opened by the current build: both PINs log in, every object has the recorded values.  K-fault: a call that answers CKR_OK although a file-system call failed must have left its effect on disk.',
+                         'samples': samples, 'k_persist': stats, 'k_fault': st, 'golden': gold, 'traces_validated_against_impl': stats['sequences'],
+                         'not_covered': 'SQLite backend (see C20)'})
+    finish_proof_side(c, res, 'C05')
+
+
+def check_C16(res, tier, seed):
+    c = prepare('C16', res, extra_vo=['extract/ExtractCodec.vo'])
+    codecdrv = vlib.build_ocaml('codecdrv', 'codec_model', 'codecdrv.ml')
+    st = store_sweep(c, res, 'C16', tier, seed, ('kill',), codecdrv)
+    res.coverage.update({'evaluations': st['kill_cases'], 'distinct_nontrivial': st['kill_cases'],
+                         'rule': 'K-crash: 18 write-path scenarios (create data / big data / private key, set attribute on a public and a private object, copy, destroy, generate key, generate key pair, unwrap, derive, C_SetPIN user / SO, C_InitPIN, C_Login, C_InitToken re-init and fresh) on a template token with four objects; harness/fsshim.so first logs the file-system events of the call, then the process is killed (_exit, nothing flushed) before event k for every k (quick: 36 sampled points per scenario incl. the first and last 12); a fresh process must initialise, find the token, log in with both PINs, return every untouched object unchanged and the written object in its old or new state (a created one may be absent, but never incomplete)',
+                         'k_crash': st, 'traces_validated_against_impl': st['kill_cases'],
+                         'not_covered': 'power-loss reordering of writes (the shim kills the process, the page cache survives); SQLite backend'})
+    finish_proof_side(c, res, 'C16')
+
+
 ATTR_RULE = ('per sequence 4-8 keys made by create / generate / unwrap / derive (ECB data, concatenations) / copy / generate-then-protect / RSA private import with random SENSITIVE, EXTRACTABLE, WRAP_WITH_TRUSTED; after each: history attributes against the ghost record, C_GetAttributeValue of secret attributes with buffers {NULL,0,n-1,n,n+9} alone or mixed, then one of: weakening attempts by set/copy (canonical and non-canonical true bytes), wrapping under untrusted/trusted keys, read-only attributes and MODIFIABLE/COPYABLE/DESTROYABLE gates, caller-supplied history attributes on create/generate/derive; TRUSTED by user vs SO; private->public copy')
 
 
@@ -400,7 +558,7 @@ def kapi_check(pid, profile, monitor_name, rule, nq=400, nt=12000, nops=45):
 
 
 RULE = 'model-guided random call sequences over 2 tokens and up to ~8 sessions (%s profile of tools/genapi.py); a trace is non-trivial when at least 3 calls after the prelude succeed; distinct = distinct (op, rv) sequences'
-CHECKS = {'C03': check_C03, 'C07': check_C07, 'C12': check_C12, 'C02': attr_check('C02'), 'C08': attr_check('C08'), 'C10': check_C10, 'C13': check_C13,
+CHECKS = {'C03': check_C03, 'C07': check_C07, 'C05': check_C05, 'C09': check_C09, 'C16': check_C16, 'C12': check_C12, 'C02': attr_check('C02'), 'C08': attr_check('C08'), 'C10': check_C10, 'C13': check_C13,
           'C01': kapi_check('C01', 'objects', 'monitor_c01', RULE % 'objects'),
           'C04': kapi_check('C04', 'pins', 'monitor_c03', RULE % 'pins'),
           'C11': kapi_check('C11', 'handles', 'monitor_c11', RULE % 'handles'),
